@@ -230,7 +230,18 @@ class SimNet:
         self.ev("conn_attempt", c=c, host=str(host), port=int(port))
         if self.auto:
             self.loop.call_soon(self.resolve_c, c, self.auto)
-        return await fut
+        try:
+            return await fut
+        except asyncio.CancelledError:
+            # loop.create_connection cleans up after itself when it is cancelled: a connection that
+            # was just made but not yet handed to the caller is closed, a pending one abandoned.
+            a = self.attempts[c]
+            if a["tr"] is not None:
+                a["tr"].close()
+            elif a["state"] == "pending":
+                a["state"] = "cancelled"
+                self.ev("conn_cancelled", c=c)
+            raise
 
     def pending(self):
         return [c for c, a in enumerate(self.attempts) if a["state"] == "pending"]
